@@ -116,6 +116,17 @@ CHECKS = {
         design="§7 C09"),
 }
 
+CHECKS["C20"] = dict(
+    technique="Lean 4 theorems on the time-builder model (fromList, fromFrequency, calendar) + K-time correspondence with the real helpers and pandas calendar",
+    text=("Proved in Lean: a list is reproduced element for element on a contiguous hourly index from the start date "
+          "(length, keys, values, strictly increasing); a frequency-based series has the requested number of points and "
+          "carries the volume exactly where the calendar predicate holds, 0 elsewhere; hour-of-day and day-of-week "
+          "periodicity. The calendar algorithm is kernel-checked against its inverse on 2023-2028 (a finite table, labelled "
+          "as such) and compared with pandas (day of week / month / year) on every run by K-time. NOT proved: the "
+          "full-day sum of the daily-volume helper (oracle only). sin-based helpers: index by the model, values by the "
+          "oracle. Finding D12 (duplicate / out-of-range hours) is a known finding."),
+    design="§7 C20")
+
 NOT_YET = {}
 
 
